@@ -1,6 +1,7 @@
 (* Model of appnotes/register_crypto_plugin/ecdsa/der.py: the DER primitives with
-   their exact exception behaviour (what the code DOES, including the IndexError
-   of the removers that index string[0] / body[0] without a length test).
+   their exact exception behaviour (what the code DOES; since /repo commit 430b0b7
+   every remover tests for empty input and for a length longer than the buffer
+   before it indexes string[0] / body[0]).
 
    Conventions: bytes = list byte, Python int = N (all arguments of the encoders
    are lengths, tags and non-negative integers; `assert r >= 0` / `assert l >= 0`
@@ -152,11 +153,16 @@ Definition is_sequence (s : bytes) : bool :=
   match s with b0 :: _ => byte_eqb b0 x30 | [] => false end.
 
 Definition remove_constructed (s : bytes) : result (N * bytes * bytes) :=
-  let* s0 := idx s 0 in
-  if negb (N.land s0 0xE0 =? 0xA0) then Err EUnexpectedDER else
-  let tag := N.land s0 0x1F in
-  let* (len, llen) := read_length (dropN 1 s) in
-  Ok (tag, slice (1 + llen) (1 + llen + len) s, dropN (1 + llen + len) s).
+  match s with
+  | [] => Err EUnexpectedDER
+  | _ =>
+    let* s0 := idx s 0 in
+    if negb (N.land s0 0xE0 =? 0xA0) then Err EUnexpectedDER else
+    let tag := N.land s0 0x1F in
+    let* (len, llen) := read_length (dropN 1 s) in
+    if blen s <? len + 1 + llen then Err EUnexpectedDER else      (* length > len(string)-1-llen *)
+    Ok (tag, slice (1 + llen) (1 + llen + len) s, dropN (1 + llen + len) s)
+  end.
 
 Definition remove_sequence (s : bytes) : result (bytes * bytes) :=
   match s with
@@ -171,10 +177,11 @@ Definition remove_sequence (s : bytes) : result (bytes * bytes) :=
 
 Definition remove_octet_string (s : bytes) : result (bytes * bytes) :=
   match s with
-  | [] => Err EIndex                         (* string[:1] != b"\x04", then string[0] *)
+  | [] => Err EUnexpectedDER
   | b0 :: _ =>
     if negb (byte_eqb b0 x04) then Err EUnexpectedDER else
     let* (len, llen) := read_length (dropN 1 s) in
+    if blen s <? len + 1 + llen then Err EUnexpectedDER else
     Ok (slice (1 + llen) (1 + llen + len) s, dropN (1 + llen + len) s)
   end.
 
@@ -189,8 +196,12 @@ Fixpoint read_number_loop (s : bytes) (number llen : N) : result (N * N) :=
   end.
 
 Definition read_number (s : bytes) : result (N * N) :=
-  let* s0 := idx s 0 in
-  if s0 =? 0x80 then Err EUnexpectedDER else read_number_loop s 0 0.
+  match s with
+  | [] => Err EUnexpectedDER
+  | _ =>
+    let* s0 := idx s 0 in
+    if s0 =? 0x80 then Err EUnexpectedDER else read_number_loop s 0 0
+  end.
 
 (* while body: n, ll = read_number(body); numbers.append(n); body = body[ll:] *)
 Fixpoint read_numbers (fuel : nat) (body : bytes) : result (list N) :=
@@ -259,12 +270,13 @@ Definition remove_bitstring (s : bytes) (expect : bs_mode) : result (bytes * opt
     if negb (byte_eqb b0 x03) then Err EUnexpectedDER else
     let* (len, llen) := read_length (dropN 1 s) in
     if len =? 0 then Err EUnexpectedDER else
+    if blen s <? len + 1 + llen then Err EUnexpectedDER else
     let body := slice (1 + llen) (1 + llen + len) s in
     let rest := dropN (1 + llen + len) s in
     match expect with
     | BsLegacy => Ok (body, None, rest)
     | _ =>
-      let* unused := idx body 0 in             (* IndexError when the body is cut off *)
+      let* unused := idx body 0 in
       if 7 <? unused then Err EUnexpectedDER else
       let* _ := match expect with
                 | BsInt e => if e =? unused then Ok tt else Err EUnexpectedDER
